@@ -34,7 +34,7 @@ RULE = ("stateful generator over the real composed system with TWO intermediated
 
 
 def budgets(tier):
-    return (16, 40) if tier == "quick" else (400, 60)
+    return (32, 40) if tier == "quick" else (400, 60)
 
 
 def op_pair(op):
